@@ -14,6 +14,7 @@ import z3
 from lib.common import (HarnessError, Stats, count_obligation, finish, load_known_findings,
                         main_wrapper, run_sharded, z3_check)
 from lib.symx.tr import model_value
+from lib.symx.znum import Z, explore, term
 
 PID = "C30"
 
@@ -95,52 +96,59 @@ def shard(payload):
     st_.instantiations = 1
     t0 = time.time()
     n, vol = z3.Int("n"), z3.Real("vol")
-    # the stride is case-split into its finite domain (one shard per value): products of two
-    # symbolic integers make z3's non-linear integer arithmetic time out, n*const does not
+    # the stride is case-split into its finite domain (one shard per value, passed to the real code
+    # as a plain int): products of two symbolic integers make z3's non-linear integer arithmetic
+    # time out, n*const does not.  n and volume are symbolic (lib/symx/znum.py: the real code's
+    # arithmetic is recorded as z3 terms, data-dependent branches fork paths).
     st = z3.IntVal(stc)
     pre = [n >= nlo, n <= nhi, vol > 0]
-    c = real_cost(topology, relevant, n, st, vol)
+    paths = explore(lambda: real_cost(topology, relevant, Z(n), stc, Z(vol)), pre)
     total, mx, cons = route_symbolic(topology, relevant, n, st, vol, NMAX, SMAX)
-    model_v, ref_v = (c.total_cost, total) if what == "total_hops" else (c.max_traffic, mx)
     st_.encode_s += time.time() - t0
-    s = z3.Solver()
-    s.add(pre)
-    s.add(cons)
     label = f"{topology} {'unicast' if relevant else 'multicast'} {what} n in [{nlo},{nhi}] stride={stc}"
-    if z3_check(s, st_, 60000) != "sat":
-        raise HarnessError(f"vacuous: {label}")
-    st_.vacuity_ok += 1
-    # seeded wrong reference (off-by-one fan-out) must be refuted
-    s.push()
-    wrong = ref_v + vol
-    s.add(model_v != wrong)
-    if z3_check(s, st_, 120000) != "sat":
-        raise HarnessError(f"seeded wrong reference not refuted: {label}")
-    st_.mutants_refuted += 1
-    s.pop()
     violations, known = [], []
-    s.push()
-    if exclude_n1_multicast and not relevant and what == "max_traffic":
-        s.add(n >= 2)
-    s.add(model_v != ref_v)
-    r = z3_check(s, st_, 900000)
-    count_obligation(st_, r, label + str(model_v))
-    st_.sample({"obligation": label, "model_term": str(model_v)[:300], "reference": "link-by-link routing, sum/max over guarded destinations"})
-    if r == "sat":
-        m = s.model()
-        cn, cs, cv = int(model_value(m, n)), int(model_value(m, st)), model_value(m, vol)
-        cvf = float(cv)
-        rc = real_cost(topology, relevant, cn, cs, cvf)
-        rt, rm = route_concrete(topology, relevant, cn, cs, cvf)
-        st_.replays += 1
-        got = rc.total_cost if what == "total_hops" else rc.max_traffic
-        exp = rt if what == "total_hops" else rm
-        if abs(float(got) - exp) <= 1e-9 * max(1.0, abs(exp)):
-            raise HarnessError(f"model does not reproduce: {label} n={cn} stride={cs} vol={cvf}: real {got} == routed {exp}")
-        violations.append(dict(property=PID, topology=topology, relevant=relevant, what=what, n=cn, stride=cs, volume=cvf,
-                               reported=float(got), routed=exp,
-                               what_fails=f"{topology} {'unicast' if relevant else 'multicast'} {what}: reported {got}, routing gives {exp} at n={cn}, stride={cs}, volume={cvf}"))
-    s.pop()
+    r = "unsat"
+    st_.extra["paths"] = st_.extra.get("paths", 0) + len(paths)
+    for conds, c in paths:
+        model_v, ref_v = (term(c.total_cost), total) if what == "total_hops" else (term(c.max_traffic), mx)
+        s = z3.Solver()
+        s.add(pre)
+        s.add(cons)
+        s.add(conds)
+        if z3_check(s, st_, 60000) != "sat":
+            raise HarnessError(f"vacuous path: {label}")
+        st_.vacuity_ok += 1
+        # seeded wrong reference (one extra delivery) must be refuted
+        s.push()
+        s.add(model_v != ref_v + vol)
+        if z3_check(s, st_, 120000) != "sat":
+            raise HarnessError(f"seeded wrong reference not refuted: {label}")
+        st_.mutants_refuted += 1
+        s.pop()
+        s.push()
+        if exclude_n1_multicast and not relevant and what == "max_traffic":
+            s.add(n >= 2)
+        s.add(model_v != ref_v)
+        r = z3_check(s, st_, 900000)
+        count_obligation(st_, r, label + str(model_v) + str(conds))
+        st_.sample({"obligation": label, "path_condition": str(conds), "model_term": str(model_v)[:300],
+                    "reference": "link-by-link routing, sum/max over guarded destinations"})
+        if r == "sat":
+            m = s.model()
+            cn, cv = int(model_value(m, n)), model_value(m, vol)
+            cs = stc
+            cvf = float(cv)
+            rc = real_cost(topology, relevant, cn, cs, cvf)
+            rt, rm = route_concrete(topology, relevant, cn, cs, cvf)
+            st_.replays += 1
+            got = rc.total_cost if what == "total_hops" else rc.max_traffic
+            exp = rt if what == "total_hops" else rm
+            if abs(float(got) - exp) <= 1e-9 * max(1.0, abs(exp)):
+                raise HarnessError(f"model does not reproduce: {label} n={cn} stride={cs} vol={cvf}: real {got} == routed {exp}")
+            violations.append(dict(property=PID, topology=topology, relevant=relevant, what=what, n=cn, stride=cs, volume=cvf,
+                                   reported=float(got), routed=exp,
+                                   what_fails=f"{topology} {'unicast' if relevant else 'multicast'} {what}: reported {got}, routing gives {exp} at n={cn}, stride={cs}, volume={cvf}"))
+        s.pop()
     d = st_.to_dict()
     d["violations"] = violations
     d["extra"] = {"per_obligation_s": [f"{label}: {time.time() - t0:.1f}s {r}"]}
@@ -154,9 +162,9 @@ def n1_multicast_probe(st_):
     out = []
     for topology in ("mesh", "all_to_all"):
         n, st, vol = z3.Int("n"), z3.Int("stride"), z3.Real("vol")
-        c = real_cost(topology, False, n, st, vol)
+        paths = explore(lambda: real_cost(topology, False, Z(n), Z(st), Z(vol)), [n == 1, st >= 1, st <= 8, vol > 0])
         s = z3.Solver()
-        s.add(n == 1, st >= 1, st <= 8, vol > 0, c.max_traffic != 0)
+        s.add(n == 1, st >= 1, st <= 8, vol > 0, z3.Or([z3.And(conds + [term(c.max_traffic) != 0]) for conds, c in paths]))
         r = z3_check(s, st_, 60000)
         count_obligation(st_, r, f"{topology} multicast n=1 max_traffic == 0")
         if r == "sat":
